@@ -85,20 +85,20 @@ def all_harnesses():
       prove(cfg.safe_area == x, "returned-unchanged")
 
   hs.append(Harness("lcd.safe_area-out-of-range-accepted@all-integers", safe_area, PARSE + ["ttconv.filters.doc.lcd:_safe_area_decoder"],
-                    "replayers.c19:decoder_int", {"decoder": "safe_area"},
+                    "replayers.c19:parse_int", {"module": "lcd", "key": "safe_area"},
                     "configuration parsing accepts exactly the documented values: safe_area is an integer between 0 and 30"))
 
   def max_row_count(ctx):
     x = sym_int("x")
     st, cfg = core.call_real(STL.STLReaderConfiguration.parse, {"max_row_count": x}, allowed=(ValueError,))
-    prove(st == "ok", "every-integer-accepted")
+    prove((x < 1) | (st == "ok"), "every-positive-integer-accepted")
     if st == "ok":
       prove(cfg.max_row_count == x, "returned-unchanged")
       prove(core.vc_is(cfg.program_start_tc, None) & (cfg.disable_fill_line_gap == False) & (cfg.disable_line_padding == False),  # noqa: E712
             "other-keys-at-their-defaults")
 
   hs.append(Harness("stl_reader.max_row_count@all-integers", max_row_count, PARSE + ["ttconv.stl.config:_decode_max_row_count"],
-                    "replayers.c19:decoder_int", {"decoder": "max_row_count"}, "max_row_count: \"MNR\" | integer"))
+                    "replayers.c19:parse_int", {"module": "stl_reader", "key": "max_row_count"}, "max_row_count: \"MNR\" | integer"))
 
   for cls, module, key in BOOL_FIELDS:
     def boolean(ctx, cls=cls, key=key):
@@ -110,8 +110,8 @@ def all_harnesses():
         prove((x != 0) | (got == False), "0-is-not-true")     # noqa: E712
         prove((x != 1) | (got == True), "1-is-not-false")     # noqa: E712
 
-    hs.append(Harness(f"bool-field-not-validated@all-integers:{module}.{key}", boolean, PARSE, "replayers.c19:config_value",
-                      {"module": module, "key": key, "value_json": "2"}, f"{module}.{key}: true | false"))
+    hs.append(Harness(f"bool-field-not-validated@all-integers:{module}.{key}", boolean, PARSE, "replayers.c19:parse_int",
+                      {"module": module, "key": key}, f"{module}.{key}: true | false"))
 
   for cls, module, key, dec in STRING_FIELDS:
     def string(ctx, cls=cls, key=key):
@@ -119,9 +119,7 @@ def all_harnesses():
       st, cfg = core.call_real(cls.parse, {key: x}, allowed=REJECT)
       prove(st == "raise", "every-integer-rejected")
 
-    hs.append(Harness(f"{module}.{key}-rejects@all-integers", string, PARSE,
-                      "replayers.c19:reject_non_string" if dec else "replayers.c19:config_value",
-                      {"decoder": dec} if dec else {"module": module, "key": key, "value_json": "7"},
+    hs.append(Harness(f"{module}.{key}-rejects@all-integers", string, PARSE, "replayers.c19:parse_int", {"module": module, "key": key},
                       f"{module}.{key} is documented as a string: no integer is a documented value"))
   return hs
 
